@@ -329,7 +329,12 @@ func (hc *HookController) UpdateSnapshots(context []bctx.BindingContext) []bctx.
 		// Update 'snapshots' field to fresh snapshot based on 'includeSnapshotsFrom' field.
 		// Note: it is a cache-enabled version of KubernetesController.SnapshotsFrom.
 		newBc.Snapshots = make(map[string][]kemtypes.ObjectAndFilterResult)
-		includeSnapshotsFrom := hc.getIncludeSnapshotsFrom(bc.Metadata.BindingType, bc.Binding)
+		// Bindings of one type may share a name (every unnamed schedule binding is "schedule"),
+		// so the list the context carries from its own binding wins over the lookup by name.
+		includeSnapshotsFrom := bc.Metadata.IncludeSnapshots
+		if len(includeSnapshotsFrom) == 0 {
+			includeSnapshotsFrom = hc.getIncludeSnapshotsFrom(bc.Metadata.BindingType, bc.Binding)
+		}
 		for _, bindingName := range includeSnapshotsFrom {
 			// Initialize all keys with empty arrays.
 			newBc.Snapshots[bindingName] = make([]kemtypes.ObjectAndFilterResult, 0)
